@@ -21,8 +21,9 @@ import functools
 import itertools
 
 NAME = "fillomino"
-STATUS = "model+differential"
-THEOREMS = []
+STATUS = "theorem"
+THEOREMS = ["Cspuz.C11.Fillomino.program_iff_rules", "Cspuz.C11.Fillomino.total"]
+LEAN_FILE = "C11_Fillomino"
 LEAN_CMD = "puz_fillomino"
 
 _SHAPES = [(1, 1), (1, 2), (2, 1), (1, 3), (3, 1), (1, 4), (4, 1), (1, 5), (5, 1), (2, 2), (2, 3), (3, 2), (2, 4), (4, 2), (3, 3),
